@@ -99,7 +99,7 @@ func seqJobList(prop, tier string) []*SeqJob {
 	case "C07":
 		return []*SeqJob{c07SeqJob(tier), scopesPerRegistrySweep(tier), bothReportersJob("C07", tier), c07TaggedRootJob(tier)}
 	case "C08":
-		return []*SeqJob{bothReportersJob("C08", tier)}
+		return []*SeqJob{bothReportersJob("C08", tier), c08AllocFailureJob(tier)}
 	case "C02":
 		return append(c02SeqJobs(tier), metricsPerScopeSweep("C02", "size-sweep-gauges-per-scope", tier, map[string]bool{"gauge": true}), bothReportersJob("C02", tier))
 	case "C03":
